@@ -15,8 +15,8 @@ from harness.spec import allowed_v5, allowed_v1, ACCEPT
 import harness.c04 as c04
 
 THOROUGH = os.environ.get("VERIF_TIER") == "thorough"
-SMAX = 4 if THOROUGH else 2     # symbolic characters per string
-KEYID_SMAX = 3 if THOROUGH else 1   # symbolic characters inside a key path element
+SMAX = 3 if THOROUGH else 2     # symbolic characters per string (4 characters: > 5000 paths per partition, never finishes)
+KEYID_SMAX = 2 if THOROUGH else 1   # symbolic characters inside a key path element
 
 KNOWN_TX = {TX_SIGNED_1IN.hex(), TX_2IN.hex(), TX_UNSIGNED_1IN.hex()}
 
@@ -163,7 +163,7 @@ def _ascii(s):
 
 @obligation(tier="quick", parts=len(FIELDS), timeout=300, part_names=field_name,
             bounds="one deviating field per partition (29 command/field pairs); deviation kind in {absent, int (any integer; "
-                   "any integer), bool, ASCII string of <= 4 symbolic characters, null, "
+                   "any integer), bool, ASCII string of <= 2 (T: 3) symbolic characters, null, "
                    "[], {}, 1.5, [string], 24 boundary strings}; protocol v5",
             examples=[(0, dict(kind=0, ival=0, sval="")), (3, dict(kind=9, ival=21, sval="")), (9, dict(kind=2, ival=0, sval="")),
                       (13, dict(kind=1, ival=2 ** 64, sval="")), (8, dict(kind=3, ival=0, sval="ab")),
